@@ -12,7 +12,7 @@ VENV_PY = "/venv/bin/python"
 PROPS: dict[str, dict[str, Any]] = {
     "C04": {
         "level": "proof",
-        "sidecars": ["contracts/c04.py", "contracts/c04_eventset.py", "contracts/c04_ingest.py"],
+        "sidecars": ["contracts/c04.py", "contracts/c04_eventset.py", "contracts/c04_ingest.py", "contracts/c04_models.py"],
         "native_n": {"quick": 300, "thorough": 5000},
         "frame_scan": True,
         "bounded": [{"script": "bounded/model_harness.py", "args": []}],
@@ -90,7 +90,7 @@ PROPS: dict[str, dict[str, Any]] = {
     },
     "C14": {
         "level": "exploration",
-        "sidecars": ["contracts/c14.py"],
+        "sidecars": ["contracts/c14.py", "contracts/c04_models.py"],
         "native_n": {"quick": 400, "thorough": 20000},
         "bounded": [{"script": "bounded/roundtrip_harness.py", "args": []}],
         "rule": "bounded stand-in: 24 (thorough 200) seeded multi-workflow trace sets (2-4 traces of 1-4 spans, chain / bushy, span names with inner and "
